@@ -6,6 +6,7 @@ import (
 	"bytes"
 	"fmt"
 	"io"
+	"math/big"
 	"sync"
 	"testing"
 
@@ -226,7 +227,7 @@ func TestVerifSuites(t *testing.T) {
 	lib.Mandatory("conformance", "conformance:base", "conformance:psk", "conformance:auth", "conformance:authpsk",
 		"seal-compared", "open-compared", "export-compared", "export-over-limit:panic",
 		"mismatch:skR", "mismatch:info", "mismatch:psk", "mismatch:psk_id", "mismatch:mode", "mismatch:pkS",
-		"mismatch:open-failed", "auth-unsupported")
+		"mismatch:open-failed", "auth-unsupported", "imported-private-key", "random-setup-checked", "hybrid-x25519-half-checked")
 	var cells []cellID
 	for _, k := range kems {
 		for _, kdf := range kdfs {
@@ -237,9 +238,9 @@ func TestVerifSuites(t *testing.T) {
 			}
 		}
 	}
-	draws := lib.Scale(3, 60)
+	draws := lib.Scale(3, 30)
 	lib.Par(len(cells)*draws, func(i int) {
-		runCell(cells[i/draws], i%draws)
+		runCell(cells[i/draws], i/draws, i%draws)
 	})
 }
 
@@ -272,19 +273,98 @@ func pickSeed(r *lib.Rng, n, variant int) []byte {
 	return r.Bytes(n)
 }
 
-func runCell(c cellID, draw int) {
+// edgePrivateKey returns the serialization of a private key that does not
+// come from DeriveKeyPair: boundary scalars for the NIST curves, raw byte
+// patterns for X25519 / X448 (which are clamped inside the DH function).
+func edgePrivateKey(r *lib.Rng, k kemDesc) []byte {
+	d := ref.GetDHKEM(uint16(k.id))
+	n := d.Nsk
+	if k.id == hpke.KEM_X25519_HKDF_SHA256 || k.id == hpke.KEM_X448_HKDF_SHA512 {
+		switch r.Intn(4) {
+		case 0:
+			return make([]byte, n)
+		case 1:
+			return bytes.Repeat([]byte{0xFF}, n)
+		case 2:
+			b := make([]byte, n)
+			b[0] = 1
+			return b
+		}
+		return r.Bytes(n)
+	}
+	order := ref.CurveOrder(uint16(k.id))
+	v := new(big.Int)
+	switch r.Intn(5) {
+	case 0:
+		v.SetInt64(1)
+	case 1:
+		v.SetInt64(2)
+	case 2:
+		v.Sub(order, big.NewInt(1))
+	case 3:
+		v.Sub(order, big.NewInt(2))
+	default:
+		v.SetBytes(r.Bytes(n))
+		v.Mod(v, new(big.Int).Sub(order, big.NewInt(1)))
+		v.Add(v, big.NewInt(1))
+	}
+	out := make([]byte, n)
+	v.FillBytes(out)
+	return out
+}
+
+// importKey builds a key pair from a serialized private key through circl's
+// UnmarshalBinaryPrivateKey and checks the public key against the reference.
+func importKey(scheme kem.Scheme, k kemDesc, skb []byte) (keyPair, error) {
+	sk, err := scheme.UnmarshalBinaryPrivateKey(skb)
+	if err != nil {
+		return keyPair{}, err
+	}
+	pk := sk.Public()
+	pkb, _ := pk.MarshalBinary()
+	skb2, _ := sk.MarshalBinary()
+	return keyPair{pk, sk, pkb, skb2}, nil
+}
+
+func runCell(c cellID, ord, draw int) {
 	r := lib.NewRng("c07/cell/"+c.String(), draw)
 	scheme := c.k.id.Scheme()
 	suite := hpke.NewSuite(c.k.id, c.kdf, c.aead)
 	rsuite := ref.Suite{KEM: uint16(c.k.id), KDF: uint16(c.kdf), AEAD: uint16(c.aead)}
 	nh := ref.Nh(rsuite.KDF)
 
-	seedR := pickSeed(r, scheme.SeedSize(), (draw+1)%5)
-	seedS := pickSeed(r, scheme.SeedSize(), (draw+3)%7)
-	ikmE := pickSeed(r, scheme.EncapsulationSeedSize(), draw%5)
+	v := ord + draw // varies the edge classes over cells as well as draws
+	seedR := pickSeed(r, scheme.SeedSize(), (v+1)%5)
+	seedS := pickSeed(r, scheme.SeedSize(), (v+3)%7)
+	ikmE := pickSeed(r, scheme.EncapsulationSeedSize(), v%5)
 	R := derive(scheme, seedR)
 	S := derive(scheme, seedS)
-	info := pickInfo(r, draw)
+	info := pickInfo(r, v)
+	importedR, importedS := false, false
+	if c.k.dh {
+		// every fourth case: receiver and / or sender key imported from
+		// boundary private-key bytes instead of derived from a seed
+		rk := ref.GetDHKEM(rsuite.KEM)
+		for who, kp := range []*keyPair{&R, &S} {
+			if (v+who)%4 != 3 {
+				continue
+			}
+			skb := edgePrivateKey(r, c.k)
+			got, err := importKey(scheme, c.k, skb)
+			wantPk, werr := rk.PublicKey(skb)
+			lib.Count("imported-private-key")
+			if err != nil || werr != nil || !lib.Eq(got.pkb, wantPk) || !lib.Eq(got.skb, skb) {
+				lib.Violation("C07:private-key-import:"+c.k.name, monSuites, c.detail("sk", skb, "err", err, "got_pk", got.pkb, "want_pk", wantPk, "got_sk", got.skb))
+				return
+			}
+			*kp = got
+			if who == 0 {
+				importedR, seedR = true, skb
+			} else {
+				importedS, seedS = true, skb
+			}
+		}
+	}
 	var psk, pskID []byte
 	if isPSK(c.mode) {
 		psk = r.Bytes(lib.Pick(r, 32, 32, 33, 48, 64, 255, 1000))
@@ -292,7 +372,7 @@ func runCell(c cellID, draw int) {
 	}
 	lib.Case([]byte(c.String()), seedR, seedS, ikmE, info, psk, pskID)
 	wit := map[string]any{"seedR": lib.Hex(seedR), "seedS": lib.Hex(seedS), "ikmE": lib.Hex(ikmE),
-		"info": lib.Hex(info), "info_nil": info == nil, "psk": lib.Hex(psk), "psk_id": lib.Hex(pskID)}
+		"info": lib.Hex(info), "info_nil": info == nil, "seedR_is_private_key": importedR, "seedS_is_private_key": importedS, "psk": lib.Hex(psk), "psk_id": lib.Hex(pskID)}
 	viol := func(key string, kv ...any) {
 		d := c.detail(kv...)
 		for k, v := range wit {
@@ -304,10 +384,13 @@ func runCell(c cellID, draw int) {
 	// key pairs against the reference's DeriveKeyPair
 	if c.k.dh {
 		rk := ref.GetDHKEM(rsuite.KEM)
-		for _, kp := range []struct {
+		for i, kp := range []struct {
 			seed []byte
 			kp   keyPair
 		}{{seedR, R}, {seedS, S}} {
+			if (i == 0 && importedR) || (i == 1 && importedS) {
+				continue
+			}
 			sk, pk, err := rk.DeriveKeyPair(kp.seed)
 			if err != nil || !lib.Eq(sk, kp.kp.skb) || !lib.Eq(pk, kp.kp.pkb) {
 				viol("C07:derive-key-pair:"+c.k.name, "seed", kp.seed, "got_sk", kp.kp.skb, "want_sk", sk, "got_pk", kp.kp.pkb, "want_pk", pk)
@@ -377,9 +460,12 @@ func runCell(c cellID, draw int) {
 		// the X25519 half of the hybrid is DHKEM(X25519, HKDF-SHA256): its enc
 		// is the first 32 bytes
 		x := ref.GetDHKEM(ref.KEMX25519)
-		_, encA, errA := x.Encap(R.pkb[:32], ikmE[:32])
+		ssA, encA, errA := x.Encap(R.pkb[:32], ikmE[:32])
 		if errA != nil || !lib.Eq(encA, enc[:32]) {
 			viol("C07:enc:"+c.k.name, "what", "X25519 half", "got", enc[:32], "want", encA)
+		}
+		if _, ssBB, e := scheme.EncapsulateDeterministically(R.pk, ikmE); e != nil || len(ssBB) != 64 || !lib.Eq(ssBB[:32], ssA) {
+			viol("C07:shared-secret:"+c.k.name, "what", "X25519 half of the KEM shared secret", "got", ssBB, "want_first_32", ssA)
 		}
 		lib.Count("hybrid-x25519-half-checked")
 	}
@@ -404,7 +490,12 @@ func runCell(c cellID, draw int) {
 		panic(fmt.Sprintf("reference receiver refused an honest setup: %v", expErr))
 	}
 	if !lib.Eq(expR.Key, expS.Key) || !lib.Eq(expR.ExporterSecret, expS.ExporterSecret) {
-		panic("reference sender and receiver disagree")
+		if c.k.dh {
+			panic("reference sender and receiver disagree")
+		}
+		// black-box KEM: both shared secrets came from circl's kem.Scheme
+		viol("C07:kem-roundtrip:"+c.k.name, "what", "Decapsulate(EncapsulateDeterministically(pk, seed)) differs from the encapsulated secret", "enc", enc)
+		return
 	}
 	okR := compareContext(monSuites, c, 1, opener, expR, wit)
 	if !okS || !okR {
@@ -415,6 +506,38 @@ func runCell(c cellID, draw int) {
 	if draw == 0 && c.kdf == hpke.KDF_HKDF_SHA256 && c.aead == hpke.AEAD_AES128GCM {
 		lib.Sample(monSuites, c.detail("seedR", seedR, "ikmE", ikmE, "info", info, "psk", psk, "psk_id", pskID, "enc", enc,
 			"key", expS.Key, "base_nonce", expS.BaseNonce, "exporter_secret", expS.ExporterSecret))
+	}
+
+	// ---- the randomised path (rnd == nil => crypto/rand): the reference
+	// receiver recomputes the context from the enc that comes back
+	if draw == 0 {
+		snd2, _ := suite.NewSender(R.pk, info)
+		var enc2 []byte
+		var sealer2 hpke.Sealer
+		var err2 error
+		pn := lib.Try("hpke.Sender.Setup:nil-rnd", nil, func() {
+			switch c.mode {
+			case ref.ModeBase:
+				enc2, sealer2, err2 = snd2.Setup(nil)
+			case ref.ModePSK:
+				enc2, sealer2, err2 = snd2.SetupPSK(nil, psk, pskID)
+			case ref.ModeAuth:
+				enc2, sealer2, err2 = snd2.SetupAuth(nil, S.sk)
+			case ref.ModeAuthPSK:
+				enc2, sealer2, err2 = snd2.SetupAuthPSK(nil, S.sk, psk, pskID)
+			}
+		})
+		if pn != nil || err2 != nil {
+			viol("C07:sender-setup-error", "rnd", "nil", "err", err2, "panic", fmt.Sprint(pn != nil))
+		} else if x, xerr := expectReceiver(c.k, rsuite, c.mode, enc2, R, S, info, psk, pskID); xerr != nil {
+			viol("C07:enc:"+c.k.name, "rnd", "nil", "what", "the reference receiver refuses the sender's enc", "enc", enc2, "err", xerr)
+		} else {
+			if lib.Eq(enc2, enc) {
+				viol("C07:enc:"+c.k.name, "rnd", "nil", "what", "randomised setup repeated the deterministic enc", "enc", enc2)
+			}
+			compareContext(monSuites, c, 0, sealer2, x, wit)
+			lib.Count("random-setup-checked")
+		}
 	}
 
 	// ---- seals: all 36 (pt, aad) length pairs, consecutively on one context
